@@ -172,11 +172,11 @@ def ibounds(t):
     if isinstance(t, int):
         return (t, t)
     i = t.get_id()
-    r = _BCACHE.get(i)
-    if r is not None:
-        return r if r != 0 else None
+    ent = _BCACHE.get(i)
+    if ent is not None:
+        return ent[1]
     r = _ibounds(t)
-    _BCACHE[i] = r if r is not None else 0
+    _BCACHE[i] = (t, r)       # the term is kept alive: z3 reuses the ids of collected terms
     return r
 
 
